@@ -68,7 +68,7 @@ def run(tier, rep, ev):
         for enc, tgt in variants:
             cases.append({"shape": shape, "calls": calls, "password": "pw" if enc else None, "target": tgt, "damaged": sorted(b["arch"].get("damaged", [])),
                           "ending": ["close", "with", "exception"][i % 3], "seed": i % 7, "coder": ["lzma2", "copy", "bzip2", "bcj+lzma2", "delta+lzma2", "deflate", "arm+lzma"][i % 7],
-                          "packcrc": (i // 3) % 2 == 0, "partialcrc": (i // 5) % 2 == 0,
+                          "packcrc": [True, False, "partial"][(i // 3) % 3], "partialcrc": (i // 5) % 2 == 0 and not b["arch"].get("damaged"),      # (damage is told by a checksum: every damaged folder keeps one)
                           "wd": os.path.join(base, f"s{len(cases)}")})
     # random longer sequences on random shapes
     names = ["getnames", "list", "getinfo", "archiveinfo", "test", "testzip", "extractall", "extract", "reset", "needs_password", "wrongmode"]
@@ -91,7 +91,7 @@ def run(tier, rep, ev):
         dmg = [R.randrange(1, shape["nfolders"] + 1)] if shape["nfolders"] and R.random() < 0.3 else []
         cases.append({"shape": shape, "calls": calls, "password": R.choice([None, None, "pw"]), "target": R.choice(["path", "stream"]), "damaged": dmg,
                       "ending": R.choice(["close", "with", "exception"]), "seed": i, "coder": R.choice(["lzma2", "copy", "deflate", "bzip2", "bcj+lzma2", "delta+lzma2", "bcj+bzip2", "ppc+lzma2"]),
-                      "packcrc": R.random() < 0.5, "partialcrc": i % 3 == 0,
+                      "packcrc": R.choice([True, False, "partial"]), "partialcrc": i % 3 == 0 and not dmg,
                       "wd": os.path.join(base, f"r{i}")})
     ev.sample({"tlc_sequence": behs[len(behs) // 2]["calls"]})
     _read.run_and_validate("C12", cases, rep, ev, validate)
